@@ -44,6 +44,29 @@ def success_value(ty):
 TRANSPARENT_OUTCOME = {"branch", "ok_or", "ok_or_else", "map_err", "as_ref", "as_deref", "as_mut", "copied", "cloned", "ok"}
 
 
+IDENTITY_CALLS = {"clone", "to_owned", "to_string", "as_str", "deref", "deref_mut", "as_ref", "as_mut", "borrow", "borrow_mut", "into", "from", "as_bytes", "as_slice", "to_vec", "as_mut_str",
+                  "into_bytes", "into_boxed_str", "into_string", "to_str", "as_deref", "cloned", "copied", "iter", "into_iter", "unwrap", "expect"} | TRANSPARENT_OUTCOME
+
+
+def not_verbatim(v, stop, extra=()):
+    """the first call between `v` and the values recognised by `stop` that is not an identity conversion (a trim, a case fold, a replace, a
+    re-encoding ..), or None when `v` is those values handed on as they are"""
+    stack, seen = [v], set()
+    while stack:
+        x = stack.pop()
+        if id(x) in seen:
+            continue
+        seen.add(id(x))
+        if stop(x):
+            continue
+        if x.kind == "call" and x.d["term"].get("name") not in IDENTITY_CALLS and x.d["term"].get("name") not in extra:
+            return x
+        if x.kind == "mut" and len(x.kids) == 2 and x.kids[1].kind == "call":
+            return x.kids[1]
+        stack.extend(k for k in x.kids if k.kind != "cycle")
+    return None
+
+
 def _outcome_root(v):
     """strip wrappers that preserve success/failure of an Option/Result"""
     n = 0
